@@ -33,7 +33,7 @@ def classify(obs):
     plain = [o for o in obs if o["state"] in ("fresh", "existing")]
     ref = key(plain[0]) if plain else key(obs[0])
     if all(key(o) == ref for o in plain) and any(key(o) != ref for o in obs):
-        return "previous-output-file (stale %s)" % ", ".join(sorted({o["state"] for o in obs if key(o) != ref}))
+        return "previous-output-file (%s)" % ", ".join(sorted({o["state"] for o in obs if key(o) != ref}))
     inproc = {key(o) for o in plain if o["mode"] == "inproc"}
     cli = {key(o) for o in plain if o["mode"] == "cli"}
     if len(inproc) == 1 and len(cli) == 1:
@@ -48,11 +48,18 @@ def classify(obs):
 def view(j):
     d = j["def"]
     types = d["types"] if j.get("cfg") != "sub" else d["types"][:1]
-    return {"generator": d["gen"], "types_flag": ",".join(types), "options": d.get("opts") or [],
+    ff = []
+    if d.get("in_flag"):
+        ff += [d["in_flag"], ("<package dir>/" if d.get("in_abs") else "") + "def.go"]
+    if d.get("out_name"):
+        ff += [d["out_flag"] + "=" + ("<package dir>/" if d.get("out_abs") else "") + d["out_name"]]
+    return {"generator": d["gen"], "types_flag": ",".join(types), "options": (d.get("opts") or []) + ff,
+            "output_file": d.get("out_name") or "def.%s.go (the go:generate default)" % d["gen"],
             "configuration": "as given" if j.get("cfg") != "sub" else
                              "first type only; the package held the output of the full -types list (%s) / foreign files before some generations" % ",".join(d["types"]),
             "generated_in_one_process_with": d.get("batch") and "the other package(s) of batch %s, in list order" % d["batch"],
-            "definition": d["source"], "has": d.get("counts"),
+            "definition": d["source"], "other_files_of_the_package": d.get("extra"), "has": d.get("counts"),
+            "stream": d.get("stream") or "main", "shape": d.get("shape"),
             "generations": [{"mode": o["mode"], "state": o["state"], "sha256": o["sha"][:16], "err": o.get("err", "")}
                             for o in j["obs"]]}
 
@@ -63,36 +70,57 @@ def map_range_tie(ctx):
     return ctx.translator_tie("xlate_maprange", ["-repo", ctx.copy_repo()], "MapRangeGen", "Tie_C14")
 
 
-ROW = re.compile(r'\("([^"]*)"(?:%string)?, "([^"]*)"(?:%string)?, "([^"]*)"(?:%string)?, "([^"]*)"(?:%string)?, "([^"]*)"(?:%string)?\)')
+def _rows(text, name, width):
+    """the tuples of the list definition `name` in a Gallina file (as a list: a multiset)"""
+    m = re.search(r"Definition %s\b.*?:=\s*\[(.*?)\]\s*\." % name, text, re.S)
+    if not m:
+        return None
+    pat = r"\(" + r",\s*".join([r'"([^"]*)"(?:%string)?'] * width) + r"\)"
+    return re.findall(pat, m.group(1))
+
+
+def _msdiff(a, b):
+    """multiset symmetric difference"""
+    a, b = list(a), list(b)
+    for x in list(a):
+        if x in b:
+            a.remove(x)
+            b.remove(x)
+    return a, b
 
 
 def tie_generators(ctx, tie_ok):
-    """generators whose packages gained or lost a map range w.r.t. the tie's expected list"""
+    """generators whose packages gained or lost a source of iteration order / a package-level
+    variable w.r.t. the tie's expected (normalised) lists"""
     if tie_ok:
         return set()
-    try:
-        gen = set(ROW.findall(open(os.path.join(ctx.gen, "MapRangeGen.v")).read()))
-        exp = set(ROW.findall(vlib.strip_comments(open(os.path.join(vlib.COQ, "ties", "Tie_C14.v")).read())))
-    except OSError:
-        return {"gsort", "genum", "gerror"}
-    out = set()
+    by_pkg = {"gsort/gen": {"gsort"}, "genum/gen": {"genum"}, "gerror/gen": {"gerror"}}
+    everything = {"gsort", "genum", "gerror"}
     try:
         gtxt = open(os.path.join(ctx.gen, "MapRangeGen.v")).read()
         etxt = vlib.strip_comments(open(os.path.join(vlib.COQ, "ties", "Tie_C14.v")).read())
-        srow = re.compile(r'\("([^"]*)"(?:%string)?, "([^"]*)"(?:%string)?, "([^"]*)"(?:%string)?, "([^"]*)"(?:%string)?\)\s*[;\n]')
-        gs = set(srow.findall(gtxt[gtxt.index("gen_pkg_state"):]))
-        es = set(srow.findall(etxt[etxt.index("expected_state"):]))
-        for row in gs ^ es:
-            out |= {"gsort/gen": {"gsort"}, "genum/gen": {"genum"}, "gerror/gen": {"gerror"}}.get(row[0], {"gsort", "genum", "gerror"})
-        if gs ^ es:
-            ctx.cov["package_state_changed"] = sorted(" / ".join(r) for r in gs ^ es)
-    except (OSError, ValueError):
-        pass
-    for row in gen ^ exp:
-        pkg = row[0]
-        out |= {"gsort/gen": {"gsort"}, "genum/gen": {"genum"}, "gerror/gen": {"gerror"}}.get(pkg, {"gsort", "genum", "gerror"})
-    ctx.cov["map_ranges_changed"] = sorted(" / ".join(r[:4]) for r in gen ^ exp)
-    return out or {"gsort", "genum", "gerror"}
+    except OSError:
+        return everything
+    out = set()
+    gs, es = _rows(gtxt, "gen_order_sources", 3), _rows(etxt, "expected_sources", 3)
+    gv, ev = _rows(gtxt, "gen_state_types", 2), _rows(etxt, "expected_state_types", 2)
+    if gs is None or es is None or gv is None or ev is None:
+        return everything
+    new, gone = _msdiff(gs, es)
+    for row in new + gone:
+        out |= by_pkg.get(row[0], everything)
+    ctx.cov["order_sources_changed"] = {"new_in_the_tree": [" / ".join(r) for r in new],
+                                        "no_longer_in_the_tree": [" / ".join(r) for r in gone]}
+    # where the new ones are (the detailed list is regenerated for this purpose)
+    det = _rows(gtxt, "gen_map_ranges", 5) or []
+    ctx.cov["order_sources_in_the_tree"] = [" / ".join(r) for r in det]
+    newv, gonev = _msdiff(gv, ev)
+    for row in newv + gonev:
+        out |= by_pkg.get(row[0], everything)
+    if newv or gonev:
+        ctx.cov["package_state_changed"] = {"new_in_the_tree": [" / ".join(r) for r in newv],
+                                            "no_longer_in_the_tree": [" / ".join(r) for r in gonev]}
+    return out or everything
 
 
 def run_farm(ctx, binp, clis, args, tag):
@@ -171,6 +199,23 @@ def attach_batches(jsons):
             j["batch_defs"] = by.get(b)
 
 
+def feats_of(j, code):
+    if code == 1:
+        return {"generator": j["def"]["gen"], "kind": "bytes-differ", "axis": classify(j["obs"]),
+                "shape": j["def"].get("shape") or ""}
+    return {"generator": j["def"]["gen"], "kind": "output-order-vs-model"}
+
+
+def is_known(ctx, feats):
+    """do the features match an OPEN finding (the test ctx.report applies)"""
+    for f in ctx.findings:
+        if f.get("property") == "C14" and f.get("status") == "open":
+            mt = f.get("match", {})
+            if mt and all(feats.get(k) == v for k, v in mt.items()):
+                return True
+    return False
+
+
 def report_bad(ctx, j, code):
     rep = {"case": view(j), "replay_cmd": "./check C14 --replay <this file>", "def": j["def"],
            "batch_defs": j.get("batch_defs")}
@@ -180,7 +225,7 @@ def report_bad(ctx, j, code):
         if len(outs) >= 2:
             rep["diff_of_two_outputs"] = "".join(list(difflib.unified_diff(
                 outs[0].splitlines(True), outs[1].splitlines(True), "output A", "output B"))[:200])
-        feats = {"generator": j["def"]["gen"], "kind": "bytes-differ", "axis": classify(j["obs"])}
+        feats = feats_of(j, code)
     else:
         rep["verdict"] = ("the order of an output list contradicts the comparator the generator sorts it by (as modelled): "
                           "gsort blocks by (TypeName, sortTypeName); genum value lists by Value.Less, trait methods by name; "
@@ -191,12 +236,25 @@ def report_bad(ctx, j, code):
         rep["blocks_observed"] = j.get("blocks")
         rep["value_orders_observed"] = j.get("value_orders")
         rep["name_orders_observed"] = j.get("name_orders")
-        feats = {"generator": j["def"]["gen"], "kind": "output-order-vs-model"}
+        feats = feats_of(j, code)
     ctx.report(rep, feats, failing_input=True)
+
+
+def own_findings(ctx):
+    """entries of known_findings.d/C14.json that the merged known_findings.json does not hold yet
+    (the merged file is rebuilt by the coordinator; an entry added here takes effect at once)"""
+    p = os.path.join(vlib.VERIF, "known_findings.d", "C14.json")
+    try:
+        mine = json.load(open(p)).get("findings", [])
+    except (OSError, ValueError):
+        return
+    have = {f.get("id") for f in ctx.findings if f.get("property") == "C14"}
+    ctx.findings += [f for f in mine if f.get("id") not in have]
 
 
 def run(ctx):
     ctx.trusted = TRUSTED
+    own_findings(ctx)
     ctx.assumptions = [
         "key-distinctness hypotheses of the theorems, each guaranteed by Go for compilable definitions: constant names unique per package (genum values / trait instances), trait method names unique (two traits `_Foo` and `Foo` would tie; the output would not compile), struct field names unique (gerror; blank `_` fields cannot carry a usable gerror tag), a type name denotes one struct (gsort: the same type listed twice in -types gives two EQUAL descs, so the tie is harmless)",
         "the stderr warnings genum prints for unsafe duplicate groups are visited in map order (C14_warning_order_is_choice) — they are not part of the generated file and outside the property",
@@ -252,8 +310,11 @@ def run(ctx):
     # two generations differ: more definitions of the affected generators (those named by the failing
     # cases and those whose packages gained or lost a map range or a package-level variable), 4 + 4
     # regular generations each plus the stale histories of the first of each stream.
-    if not any(c == 1 for _, c in bad) and (bad or not tie_ok):
-        affected = sorted({jsons[i]["def"]["gen"] for i, _ in bad} | tie_generators(ctx, tie_ok))
+    # (cases explained by an open known finding do not count: they neither stand for nor hide
+    # another problem)
+    unlisted = [(i, c) for i, c in bad if not is_known(ctx, feats_of(jsons[i], c))]
+    if not any(c == 1 for _, c in unlisted) and (unlisted or not tie_ok):
+        affected = sorted({jsons[i]["def"]["gen"] for i, _ in unlisted} | tie_generators(ctx, tie_ok))
         ctx.log("widened search for two differing generations (%s)" % ",".join(affected))
         per = 4 if quick else 12          # indices; each gives one definition per stream of the generator
         if len(affected) == 1:
@@ -268,6 +329,7 @@ def run(ctx):
                 j["widened"] = True
             bad += [(len(jsons) + i, c) for i, c in wbad]
             jsons += wj
+            unlisted = [(i, c) for i, c in bad if not is_known(ctx, feats_of(jsons[i], c))]
             ctx.cov["widened_search"] = {"definitions": len(wj), "generations": sum(len(j["obs"]) for j in wj),
                                          "differing_generations_found": sum(1 for _, c in wbad if c == 1)}
     # failing inputs first: definitions on which two generations differed (code 1), then
@@ -278,16 +340,18 @@ def run(ctx):
         if c == 2 and jsons[i]["def"]["gen"] not in seen:
             seen.add(jsons[i]["def"]["gen"])
             twos.append((i, c))
+    minimised = False
     for k, (i, code) in enumerate(ones + twos):
         j = jsons[i]
-        if code == 1 and k < 1:
+        if code == 1 and not minimised and not is_known(ctx, feats_of(j, code)):
             j = minimise(ctx, binp, clis, j)
+            minimised = True
         report_bad(ctx, j, code)
     if len(bad) > len(ones) + len(twos):
         ctx.violations += ["(like a replay above)"] * (len(bad) - len(ones) - len(twos))
     if not tie_ok:
         ctx.cov["translator_tie"] = {"status": "BROKEN", "detail": tie_detail[-800:]}
-        if not bad:
+        if not unlisted:
             gen = os.path.join(ctx.gen, "MapRangeGen.v")
             ctx.report({"unchecked": "tie Tie_C14 (the map ranges of the generator packages = the ones GenDetModel accounts for)",
                         "detail": tie_detail[-2500:],
